@@ -102,7 +102,10 @@ def h_rel(shape, implicit_tz=None, time_as_period=False):
                 st["TIMEZONE"] = implicit_tz
             # the system clock is not at the very ends of the representable range (a +-14 h zone shift must exist)
             clk0 = dates.SDateTime._clock()
-            core.assume(mkbool(z3.And(_zi(clk0.year) >= 2, _zi(clk0.year) <= 9998)))
+            if "/" in implicit_tz:
+                core.assume(mkbool(_zi(clk0.year) == 2021))      # window of the zone table (tz-database zone with transitions)
+            else:
+                core.assume(mkbool(z3.And(_zi(clk0.year) >= 2, _zi(clk0.year) <= 9998)))
         if time_as_period:
             st["RETURN_TIME_AS_PERIOD"] = True
         v = {}
@@ -126,8 +129,14 @@ def h_rel(shape, implicit_tz=None, time_as_period=False):
         wit.update(v)
         if implicit_tz is not None:
             clk = dates.SDateTime._clock()
-            off = 0 if implicit_tz == "local" else _off_us(implicit_tz)
-            b = clk._shift_us(off) if off else clk
+            if "/" in implicit_tz:
+                from . import zones
+                tab = zones.table(implicit_tz, 2020, 2022)
+                zoff = zones.z_offset_at_utc(tab, clk._ord(), clk._us_of_day())
+                b = clk._shift(dates.STimedelta(seconds=core.mkint(zoff)))
+            else:
+                off = 0 if implicit_tz == "local" else _off_us(implicit_tz)
+                b = clk._shift_us(off) if off else clk
         valid, o2, r2 = z_oracle(b, counts, sign, ct)
         do = dd.date_obj
         per = expected_period(units, bool(shape.get("time")), time_as_period)
@@ -195,6 +204,8 @@ def tasks(tier, seed):
     if not quick:
         add("time:word tomorrow:time_as_period", {"word": "tomorrow", "time": True}, time_as_period=True)
         add("time:months ago at", _single("month", "ago", 2, time=True))
+    for z in (["Europe/Paris"] if quick else ["Europe/Paris", "America/New_York", "Australia/Lord_Howe"]):
+        add("implicit-now:%s:in hours" % z, _single("hour", "in", 2), implicit_tz=z)
     for tz in (["+0530", "local"] if quick else ["UTC", "local", "+0530", "-0800", "+1245", "-0330"]):
         add("implicit-now:%s:days ago" % tz, _single("day", "ago", 2), implicit_tz="UTC" if tz == "UTC" else tz)
         if not quick:
@@ -246,7 +257,11 @@ def native_check(spec):
         b = _dt.datetime(*spec["call"]["settings"]["RELATIVE_BASE"])
     else:
         clk = spec.get("clock") or [2000, 1, 1, 0, 0, 0, 0]
-        off = 0 if spec["implicit_tz"] in ("local", "UTC") else _off_us(spec["implicit_tz"])
+        if "/" in spec["implicit_tz"]:
+            from . import zones
+            off = zones.offset_at_utc_native(zones.table(spec["implicit_tz"], 2020, 2022), _dt.datetime(*clk)) * 1000000
+        else:
+            off = 0 if spec["implicit_tz"] in ("local", "UTC") else _off_us(spec["implicit_tz"])
         b = _dt.datetime(*clk) + _dt.timedelta(microseconds=off)
     if shape.get("word"):
         sign = -1 if WORDS[shape["word"]][0] == "ago" else 1
